@@ -16,6 +16,7 @@ import Mathlib.RingTheory.AdjoinRoot
 import Mathlib.FieldTheory.Finite.Basic
 import Mathlib.FieldTheory.Finiteness
 import Mathlib.Tactic.LinearCombination
+import Mathlib.FieldTheory.Finite.Trace
 import Mathlib.Algebra.Polynomial.SpecificDegree
 import Algobra.Model.Field
 import Algobra.Model.Ext
@@ -829,6 +830,163 @@ theorem irreducible_toPoly2_eleven : Irreducible (toPoly2 11) := by
     rw [toPoly2_eleven, IsRoot.def]
     simp only [eval_add, eval_pow, eval_X, eval_one]
     revert x; decide
+
+/-! ## `trace` and the generator -/
+
+theorem add_sq_char2 (m : Nat) (x y : AdjoinRoot (toPoly2 m)) : (x + y) ^ 2 = x ^ 2 + y ^ 2 := by
+  have := emb_add_self m (x * y)
+  linear_combination this
+
+theorem add_pow_two_pow (m : Nat) (x y : AdjoinRoot (toPoly2 m)) (k : Nat) :
+    (x + y) ^ 2 ^ k = x ^ 2 ^ k + y ^ 2 ^ k := by
+  induction k with
+  | zero => simp
+  | succ k ih => rw [pow_succ, pow_mul, ih, add_sq_char2, ← pow_mul, ← pow_mul]
+
+section Trace
+variable {n m : Nat}
+
+theorem traceLoop_spec (hn1 : 1 ≤ n) (hn : n ≤ 63) (hm1 : 2 ^ n ≤ m) (hm2 : m < 2 ^ (n + 1))
+    [Fact (Irreducible (toPoly2 m))] {a : Nat} (ha : a < 2 ^ n) (k : Nat) :
+    ∀ out, out < 2 ^ n →
+      Bin.traceLoop n m a out k < 2 ^ n ∧
+        emb m (Bin.traceLoop n m a out k)
+          = emb m out ^ 2 ^ k + ∑ i ∈ Finset.range k, emb m a ^ 2 ^ i := by
+  induction k with
+  | zero => intro out hout; simp [Bin.traceLoop, hout]
+  | succ k ih =>
+    intro out hout
+    obtain ⟨hp1, hp2⟩ := pow_spec hn1 hn hm1 hm2 hout 2
+    obtain ⟨h1, h2⟩ := ih (Bin.pow n m out 2 ^^^ a) (Nat.xor_lt_two_pow hp1 ha)
+    rw [Bin.traceLoop]
+    refine ⟨h1, ?_⟩
+    rw [h2, emb_xor, hp2, add_pow_two_pow, ← pow_mul, ← pow_succ', Finset.sum_range_succ]
+    ring
+
+/-- `Trace` computes `∑_{i<n} a^(2^i)` -/
+theorem trace_spec (hn1 : 1 ≤ n) (hn : n ≤ 63) (hm1 : 2 ^ n ≤ m) (hm2 : m < 2 ^ (n + 1))
+    [Fact (Irreducible (toPoly2 m))] {a : Nat} (ha : a < 2 ^ n) :
+    Bin.trace n m a < 2 ^ n ∧
+      emb m (Bin.trace n m a) = ∑ i ∈ Finset.range n, emb m a ^ 2 ^ i := by
+  obtain ⟨h1, h2⟩ := traceLoop_spec hn1 hn hm1 hm2 ha (n - 1) a ha
+  refine ⟨h1, ?_⟩
+  rw [Bin.trace, h2]
+  conv_rhs => rw [show n = (n - 1) + 1 by omega, Finset.sum_range_succ]
+  ring
+
+/-- the field trace to the prime field: `Tr_{GF(2^n)/GF(2)}` -/
+theorem trace_eq_algebra_trace (hn1 : 1 ≤ n) (hn : n ≤ 63) (hm1 : 2 ^ n ≤ m)
+    (hm2 : m < 2 ^ (n + 1)) [Fact (Irreducible (toPoly2 m))] {a : Nat} (ha : a < 2 ^ n) :
+    emb m (Bin.trace n m a)
+      = algebraMap (ZMod 2) (AdjoinRoot (toPoly2 m))
+          (Algebra.trace (ZMod 2) (AdjoinRoot (toPoly2 m)) (emb m a)) := by
+  have hf : toPoly2 m ≠ 0 := toPoly2_modulus_ne_zero hm1
+  have hc := natCard_adjoinRoot hm1 hm2
+  have : Finite (AdjoinRoot (toPoly2 m)) := by
+    apply Nat.finite_of_card_ne_zero
+    rw [hc]; exact (Nat.two_pow_pos n).ne'
+  rw [(trace_spec hn1 hn hm1 hm2 ha).2, FiniteField.algebraMap_trace_eq_sum_pow,
+    (AdjoinRoot.powerBasis hf).finrank, AdjoinRoot.powerBasis_dim, Nat.card_zmod,
+    natDegree_modulus hm1 hm2]
+
+/-- `binOps.gen = reduce 2` is the class of `X` (which generates the multiplicative group when
+    `m` is a Conway polynomial; that is C02/Conway, not proved here). -/
+theorem gen_spec (hm1 : 2 ^ n ≤ m) (hm2 : m < 2 ^ (n + 1)) :
+    Bin.reduce n m 2 < 2 ^ n ∧ emb m (Bin.reduce n m 2) = AdjoinRoot.root (toPoly2 m) := by
+  obtain ⟨h1, h2⟩ := reduce_spec hm1 hm2 2 (by decide)
+  exact ⟨h1, by rw [h2, emb_two]⟩
+
+end Trace
+
+/-! ## `polyFromCoefs`: the bit mask of a coefficient list -/
+
+/-- reference: `c₀ + 2·c₁ + 4·c₂ + …` -/
+def maskOf : List Nat → Nat
+  | [] => 0
+  | c :: cs => c + 2 * maskOf cs
+
+theorem maskOf_lt (cs : List Nat) (h : ∀ c ∈ cs, c < 2) : maskOf cs < 2 ^ cs.length := by
+  induction cs with
+  | nil => simp [maskOf]
+  | cons c cs ih =>
+    have h1 := h c (by simp)
+    have h2 := ih (fun x hx => h x (by simp [hx]))
+    simp only [maskOf, List.length_cons, Nat.pow_succ]
+    omega
+
+theorem testBit_maskOf (cs : List Nat) (h : ∀ c ∈ cs, c < 2) (i : Nat) :
+    (maskOf cs).testBit i = decide (cs.getD i 0 = 1) := by
+  induction cs generalizing i with
+  | nil => simp [maskOf]
+  | cons c cs ih =>
+    have h1 := h c (by simp)
+    have h2 := ih (fun x hx => h x (by simp [hx]))
+    cases i with
+    | zero =>
+      simp only [maskOf, Nat.testBit_zero, List.getD_cons_zero]
+      congr 1
+      apply propext
+      omega
+    | succ i =>
+      rw [Nat.testBit_succ, List.getD_cons_succ, ← h2 i]
+      simp only [maskOf]
+      congr 1
+      omega
+
+theorem polyFromCoefs_fold (cs : List Nat) : ∀ k acc, (∀ c ∈ cs, c < 2) → k + cs.length ≤ 64 →
+    acc < 2 ^ k →
+    (cs.zipIdx k).foldl (fun acc (x : Nat × Nat) => w64 (acc + w64 (x.1 <<< x.2))) acc
+      = acc + 2 ^ k * maskOf cs := by
+  induction cs with
+  | nil => intro k acc _ _ _; simp [maskOf]
+  | cons c cs ih =>
+    intro k acc h hlen hacc
+    have h1 := h c (by simp)
+    simp only [List.length_cons] at hlen
+    have hpow : (2 : Nat) ^ (k + 1) ≤ 2 ^ 64 := Nat.pow_le_pow_right (by decide) (by omega)
+    have hk : 2 ^ (k + 1) = 2 * 2 ^ k := by rw [Nat.pow_succ]; omega
+    have hc : c <<< k ≤ 2 ^ k := by
+      rw [Nat.shiftLeft_eq]
+      calc c * 2 ^ k ≤ 1 * 2 ^ k := Nat.mul_le_mul_right _ (by omega)
+        _ = 2 ^ k := Nat.one_mul _
+    have hw1 : w64 (c <<< k) = c <<< k := w64_of_lt (by omega)
+    have hw2 : w64 (acc + c <<< k) = acc + c <<< k := w64_of_lt (by omega)
+    rw [List.zipIdx_cons, List.foldl_cons]
+    simp only [hw1, hw2]
+    rw [ih (k + 1) _ (fun x hx => h x (by simp [hx])) (by omega) (by omega)]
+    simp only [maskOf, Nat.shiftLeft_eq, hk]
+    ring
+
+theorem polyFromCoefs_eq (cs : List Nat) (h : ∀ c ∈ cs, c < 2) (hlen : cs.length ≤ 64) :
+    Bin.polyFromCoefs cs = maskOf cs := by
+  have := polyFromCoefs_fold cs 0 0 h (by omega) (by decide)
+  simp only [Nat.pow_zero, Nat.one_mul, Nat.zero_add] at this
+  rw [← this]
+  rfl
+
+/-- bit `i` of `polyFromCoefs cs` is `cs[i]`: the Conway coefficient list (lowest degree first)
+    becomes the polynomial with these coefficients -/
+theorem coeff_polyFromCoefs (cs : List Nat) (h : ∀ c ∈ cs, c < 2) (hlen : cs.length ≤ 64) (i : Nat) :
+    (toPoly2 (Bin.polyFromCoefs cs)).coeff i = ((cs.getD i 0 : Nat) : ZMod 2) := by
+  rw [polyFromCoefs_eq cs h hlen, coeff_toPoly2, testBit_maskOf cs h]
+  have : cs.getD i 0 < 2 := by
+    rw [List.getD_eq_getElem?_getD]
+    cases hi : cs[i]? with
+    | none => simp
+    | some x => exact h x (List.mem_of_getElem? hi)
+  generalize cs.getD i 0 = x at this ⊢
+  have hx : x = 0 ∨ x = 1 := by omega
+  rcases hx with rfl | rfl <;> simp
+
+/-- a monic coefficient list of length `n+1` gives a valid modulus mask -/
+theorem polyFromCoefs_bounds {n : Nat} (cs : List Nat) (h : ∀ c ∈ cs, c < 2)
+    (hlen : cs.length = n + 1) (hn : n ≤ 63) (hlead : cs.getD n 0 = 1) :
+    2 ^ n ≤ Bin.polyFromCoefs cs ∧ Bin.polyFromCoefs cs < 2 ^ (n + 1) := by
+  rw [polyFromCoefs_eq cs h (by omega)]
+  constructor
+  · apply Nat.ge_two_pow_of_testBit
+    rw [testBit_maskOf cs h, hlead]; rfl
+  · rw [← hlen]; exact maskOf_lt cs h
 
 end BinField
 end Algobra
